@@ -1,13 +1,16 @@
 (* S for C11: the scanner the property describes.  Walk the argument vector;
    -DV / -D V, -IV / -I V, -isystemV / -isystem V, -includeV / -include V
-   contribute V to the defines, the search directories and the forced includes,
-   in command-line order; everything else is skipped.  Knows nothing about
+   contribute V to the defines, the -I directories, the -isystem directories
+   and the forced includes, each in command-line order; everything else is
+   skipped.  The search directories of the configuration are the -I
+   directories followed by the -isystem directories (the order in which a
+   compiler searches them).  Knows nothing about
    argparse, option tables or which other options take arguments. *)
 From Coq Require Import Ascii String Bool List.
 Import ListNotations.
 Local Open Scope string_scope.
 
-Inductive kind := KD | KP | KF.
+Inductive kind := KD | KP | KS | KF.
 
 Fixpoint strip (p s : string) : option string :=
   match p with
@@ -23,19 +26,23 @@ Fixpoint strip (p s : string) : option string :=
 Definition recognise (t : string) : option (kind * string) :=
   match strip "-D" t with Some v => Some (KD, v) | None =>
   match strip "-I" t with Some v => Some (KP, v) | None =>
-  match strip "-isystem" t with Some v => Some (KP, v) | None =>
+  match strip "-isystem" t with Some v => Some (KS, v) | None =>
   match strip "-include" t with Some v => Some (KF, v) | None => None end end end end.
 
 Definition lists := (list string * list string * list string)%type.
-Definition add (k : kind) (v : string) (l : lists) : lists :=
-  match l with (d, p, f) =>
-    match k with KD => (v :: d, p, f) | KP => (d, v :: p, f) | KF => (d, p, v :: f) end
+(* per option: defines, -I directories, -isystem directories, forced includes *)
+Definition lists4 := (list string * list string * list string * list string)%type.
+Definition add (k : kind) (v : string) (l : lists4) : lists4 :=
+  match l with (d, p, s, f) =>
+    match k with
+    | KD => (v :: d, p, s, f) | KP => (d, v :: p, s, f) | KS => (d, p, v :: s, f) | KF => (d, p, s, v :: f)
+    end
   end.
 
 (* [pend] = the flag whose value is the next argument *)
-Fixpoint scan (pend : option kind) (argv : list string) : lists :=
+Fixpoint scan (pend : option kind) (argv : list string) : lists4 :=
   match argv with
-  | [] => ([], [], [])
+  | [] => ([], [], [], [])
   | t :: r =>
       match pend with
       | Some k => add k t (scan None r)
@@ -48,7 +55,10 @@ Fixpoint scan (pend : option kind) (argv : list string) : lists :=
       end
   end.
 
-Definition scan_S (argv : list string) : lists := scan None argv.
+Definition scan4_S (argv : list string) : lists4 := scan None argv.
+(* the configuration: defines, -I directories followed by -isystem directories, forced includes *)
+Definition flat4 (l : lists4) : lists := match l with (d, p, s, f) => (d, List.app p s, f) end.
+Definition scan_S (argv : list string) : lists := flat4 (scan4_S argv).
 
 (* after [argv] no flag is waiting for its value *)
 Fixpoint complete_from (pend : option kind) (argv : list string) : bool :=
@@ -65,5 +75,5 @@ Fixpoint complete_from (pend : option kind) (argv : list string) : bool :=
   end.
 Definition complete (argv : list string) : bool := complete_from None argv.
 
-Definition app3 (a b : lists) : lists :=
-  match a, b with (d1, p1, f1), (d2, p2, f2) => (List.app d1 d2, List.app p1 p2, List.app f1 f2) end.
+Definition app4 (a b : lists4) : lists4 :=
+  match a, b with (d1, p1, s1, f1), (d2, p2, s2, f2) => (List.app d1 d2, List.app p1 p2, List.app s1 s2, List.app f1 f2) end.
